@@ -207,8 +207,15 @@ def plan_C10(prop, tier, seed, t0):
         dict(name="simp_rand", engine="simp", args=["--random", 250 if q else 4000, "--rand", "kind=gl,maxsp=6,maxb=2,phs=01246,vars=012,pvar=0.3,gadgets=3"], **S),
         dict(name="simp_rand_zx", engine="simp", args=["--random", 150 if q else 3000, "--rand", "maxsp=5,maxb=2,vars=012,pvar=0.3"], **S),
         dict(name="simp_steps", engine="simp", args=["--steps", "--random", 60 if q else 1200, "--rand", "kind=gl,maxsp=6,maxb=2,phs=01246,vars=012,pvar=0.3,gadgets=3"], **S),
-        dict(name="measure", engine="tograph", args=["--enum", "2,2,small", "--random", 150 if q else 2500, "--alphabet", "all", "--maxq", 3, "--maxlen", 7,
-                                                     "--stride", 2 if q else 1], **C),
+        # --vars: every circuit with a measurement also with EXPLICIT outcome variables (own / one shared / explicit+fresh mixed / parities /
+        # numbering gap) and as QASM text with `measure q[i] -> c[j];`; --meas-boost: 1..3 further measurements per random circuit;
+        # --direct-every: Gate::add_to_graph driven by the caller (own qubit map, own first fresh variable)
+        dict(name="measure", engine="tograph", args=["--enum", "2,2,small", "--random", 100 if q else 2500, "--alphabet", "all", "--maxq", 3, "--maxlen", 7,
+                                                     "--stride", 3 if q else 1, "--vars", "--meas-boost", "--direct-every", 5], **C),
+        # docs/api_audit.md #20: plug / append / adjoint / x_to_z / basis plugging / copy / sub-graph on diagrams with variables and conditional factors
+        dict(name="compose_v", engine="compose", module="Trace_Compose.tla", cfg="Trace_Compose.cfg",
+             args=["--fam", "k=1,tys=ZX,phs=014,ets=NH,nb=2,vars=01", "--random", 150, "--rand", "maxsp=4,maxb=3,vars=012,pvar=0.35", "--sf",
+                   "--pairs", 150 if q else 3000]),
     ]
     return run_plan(prop, tier, seed, t0, mcs, traces, "model_checking", COMMON_ASSUME,
                     "as C04/C01/C02 with boolean variables (including variable 0) on spiders: soundness is DenV(post) = DenV(pre), i.e. "
@@ -224,14 +231,23 @@ def plan_C02(prop, tier, seed, t0):
     traces = [
         dict(name="enum", engine="tograph", args=["--enum", "2,2,all" if q else "2,3,small", "--enum", "3,1,ccz" if q else "3,2,ccz", "--enum", "1,3,small",
                                                   "--stride", 3 if q else 1], **C),
-        dict(name="rand", engine="tograph", args=["--random", 250 if q else 4000, "--alphabet", "all", "--maxq", 3, "--maxlen", 8], **C),
+        # --direct-every K: every K-th circuit also through the public Gate::add_to_graph with a caller-owned, permuted qubit map;
+        # --unknown-every K: every K-th circuit also with an UnknownGate inserted (recorded in stats, not judged)
+        dict(name="rand", engine="tograph", args=["--random", 250 if q else 4000, "--alphabet", "all", "--maxq", 3, "--maxlen", 8,
+                                                  "--direct-every", 6, "--unknown-every", 10], **C),
         dict(name="rand4", engine="tograph", args=["--random", 40 if q else 1000, "--alphabet", "unitary", "--maxq", 4, "--maxlen", 10], **C),
+        # measurements with explicit outcome variables (shared, mixed with fresh ones, parities), also via QASM `measure` statements
+        dict(name="vars", engine="tograph", args=["--random", 50 if q else 1500, "--alphabet", "all", "--maxq", 3, "--maxlen", 7, "--vars", "--meas-boost",
+                                                  "--direct-every", 3], **C),
     ]
     return run_plan(prop, tier, seed, t0, mcs, traces, "model_checking", COMMON_ASSUME,
                     "MC: the transcribed translation ToGraph vs the gate-matrix semantics CircSem for every circuit over the alphabet up to "
                     "the length bound (every prefix is a state), all measurement outcomes; TRACE: one execution = one circuit translated "
-                    "by the real code in 3 modes x 2 backends; every translation of a non-empty circuit is non-trivial and decided by "
-                    "Den(diagram) = CircSem(circuit) in TLC")
+                    "by the real code in 4 modes (plain, simplify, post-selected CCZ, both) x 2 backends, plus the same translation driven gate by "
+                    "gate through the public Gate::add_to_graph (caller-owned permuted qubit map, caller-chosen first fresh variable), circuits "
+                    "whose measurements carry explicit variables (shared / mixed with fresh ones) and circuits handed over as QASM text with "
+                    "measure statements; every translation of a non-empty circuit is non-trivial and decided by "
+                    "Den(diagram) = CircSem(circuit) under every outcome assignment in TLC; circuits containing UnknownGate are only recorded")
 
 
 def plan_C15(prop, tier, seed, t0):
@@ -246,7 +262,11 @@ def plan_C15(prop, tier, seed, t0):
     return run_plan(prop, tier, seed, t0, mcs, traces, "model_checking", COMMON_ASSUME,
                     "MC: adjoint inverts / expansion preserves / advertised count / concatenation composes for every circuit over the "
                     "alphabet up to the bound on the specification; TRACE: one execution = one circuit on which to_adjoint, "
-                    "to_basic_gates, +, reverse, stats ran; each result is decided by exact CircSem equalities in TLC")
+                    "to_basic_gates, +, reverse, stats ran, and the rest of the public surface: + / += on operands with DIFFERENT qubit counts "
+                    "(no composite: every overload must refuse), push_front / push_back, construction by name (add_gate family), "
+                    "num_gates_of_type for every kind, CircuitStats::into_array / Display / make, in-place Circuit::adjoint and Gate::adjoint, "
+                    "impl RowOps for Circuit (add_row / swap_rows mirrored against bitgauss's BitMatrix through the circuit's X-basis F2 map); "
+                    "each result is decided by exact CircSem equalities in TLC")
 
 
 def plan_C08(prop, tier, seed, t0):
@@ -259,13 +279,14 @@ def plan_C08(prop, tier, seed, t0):
         dict(name="rand", engine="tensor", args=["--random", 1500 if q else 30000, "--rand", "maxsp=7,maxb=4"], **T),
         dict(name="circ", engine="tensor", args=["--enum", "2,2,small" if q else "2,3,small", "--enum", "3,1,x", "--random-circuits", 300 if q else 6000], **T),
         # API-coverage additions (docs/api_audit.md #4, #5): comparison helpers in both number types, QubitOps, plug_n_qubits
-        dict(name="helpers", engine="tensor", args=["--helpers", 1500 if q else 30000, "--objects", 160 if q else 3000, "--qops", 400 if q else 8000,
-                                                    "--plug", 200 if q else 4000, "--unsupported"], **T),
         # size-dependent code paths: rayon / ndarray split their work by size (hadamard_at zips two halves of the tensor in
-        # parallel, cphase_at / delta_at broadcast), so one width above every threshold the code has must be exercised:
-        # 6- and 7-qubit circuits (4096 / 16384 entries) through Circuit::to_tensor4/f AND to_graph().to_tensor4(), and
-        # direct hadamard_at / cphase_at / delta_at on ident(6) at the first, last and middle index positions
-        dict(name="wide", engine="tensor", args=["--wide", 48 if q else 400, "--wide7", "--wide-ops", 16 if q else 120], **T),
+        # parallel, cphase_at / delta_at broadcast; tensor.rs itself has no size constant), so one width above every threshold
+        # the code has must be exercised: 6- and 7-qubit circuits (4096 / 16384 entries) through Circuit::to_tensor4/f AND
+        # to_graph().to_tensor4(), and direct hadamard_at / cphase_at / delta_at on ident(6) at the first, last and middle
+        # index positions (--wide N circuits, every fifth on 7 qubits; --wide-ops N operation sequences)
+        dict(name="api", engine="tensor", args=["--helpers", 1500 if q else 30000, "--objects", 160 if q else 3000, "--qops", 400 if q else 8000,
+                                                "--plug", 200 if q else 4000, "--unsupported",
+                                                "--wide", 45 if q else 400, "--wide7", "--wide-ops", 16 if q else 120], **T),
     ]
     return run_plan(prop, tier, seed, t0, mcs, traces, "model_checking", COMMON_ASSUME + [
                         "the float-typed comparison helpers cross-multiply in floating point: a 'proportional' verdict is only demanded where "
@@ -293,13 +314,25 @@ def plan_C11(prop, tier, seed, t0):
         dict(name="pairs", engine="compose", args=["--wires", "--fam", "k=1,tys=ZX,phs=014,ets=NH,nb=2,bb=1", "--fam", "k=2,tys=ZX,phs=01,ets=NH,nb=2",
                                                    "--random", 200, "--rand", "maxsp=4,maxb=4", "--pairs", 1200 if q else 20000], **T),
         dict(name="wires", engine="compose", args=["--wires", "--allpairs"], **T),
+        # docs/api_audit.md #20: the same calls on diagrams whose spiders carry boolean variables and whose scalar has conditional factors,
+        # every equation judged under EVERY assignment (DenV)
+        dict(name="pairs_v", engine="compose", args=["--fam", "k=1,tys=ZX,phs=014,ets=NH,nb=2,vars=01", "--random", 150, "--rand", "maxsp=4,maxb=3,vars=012,pvar=0.35",
+                                                     "--sf", "--pairs", 120 if q else 3000], **T),
     ]
     return run_plan(prop, tier, seed, t0, mcs, traces, "model_checking", COMMON_ASSUME,
                     "MC: all pairs of diagrams of the family (one spider each, <=2 boundaries attached by N/H wires, optional boundary-to-"
                     "boundary wire) with matching arities: plug = composition, juxtaposition = tensor product, adjoint = dagger and involutive, "
                     "plug_inputs/outputs = contraction with basis vectors for EVERY list over {Z0,Z1,X0,X1,SKIP} of every length <= #wires, "
                     "is_identity = structural definition; TRACE: one execution = one pair on which all those calls ran in both backends; "
-                    "each result decided in TLC by Den(post) = the linear-algebra expression over Den(g), Den(h)")
+                    "each result decided in TLC by Den(post) = the linear-algebra expression over Den(g), Den(h); also copy(adjoint), "
+                    "subgraph_from_vertices on unions of connected components (tensor factor), plug_vertex called directly, lists mapped through "
+                    "BasisElem::flipped, the BasisElem predicates; pairs_v: operands with boolean variables and conditional scalar factors, every "
+                    "equation under every assignment. Deviations that are exactly one of the three recorded defects (conditional factors of `other` "
+                    "not taken over by append_graph/plug, not conjugated by adjoint, copy() without boundary lists and scalar; switches in "
+                    "mc/Trace_Compose.tla) are counted in trace_stats sf_other_dropped / sf_not_conjugated / copy_incomplete",
+                    extra_cov_fn=lambda st, groups: {"known_deviation_sf_other_dropped": st.get("sf_other_dropped", 0),
+                                                     "known_deviation_sf_not_conjugated": st.get("sf_not_conjugated", 0),
+                                                     "known_deviation_copy_incomplete": st.get("copy_incomplete", 0)})
 
 
 def plan_C12(prop, tier, seed, t0):
@@ -309,14 +342,19 @@ def plan_C12(prop, tier, seed, t0):
     T = dict(module="Trace_Eq.tla", cfg="Trace_Eq.cfg")
     traces = [
         dict(name="enum", engine="eqcheck", args=["--enum", "1,2,small_unitary", "--enum", "2,1,small_unitary", "--stride", 2 if q else 1], **T),
-        dict(name="rand", engine="eqcheck", args=["--random", 400 if q else 2500, "--alphabet", "unitary", "--maxq", 3, "--maxlen", 7], **T),
+        # --graphs-every K: every K-th pair also as two unitary DIAGRAMS that are not to_graph outputs (simplified, built with options,
+        # colour-changed, renamed, times i), ground truth = Den of the logged diagrams
+        dict(name="rand", engine="eqcheck", args=["--random", 400 if q else 2500, "--alphabet", "unitary", "--maxq", 3, "--maxlen", 7,
+                                                  "--graphs-every", 6 if q else 3], **T),
     ]
     return run_plan(prop, tier, seed, t0, mcs, traces, "model_checking", COMMON_ASSUME,
                     "MC: the checker's algorithm (adjoint, plug, every firing order of full_simp, identity test, scalar test) on every pair of "
                     "circuits over the alphabet: the composite denotes S1^dagger;S2 in every state and the answer at every quiescent state "
                     "obeys Def; TRACE: one execution = one pair of circuits (independent, equal by construction: cancelling pairs, commuted "
                     "gates, re-extraction; near misses: one gate changed, global phase -1 / e^{i pi/4}, Hadamards on wires, wire swap, other "
-                    "arity) on which all eight checker entry points ran; non-trivial = definite answers, each compared with CircSem ground truth")
+                    "arity) on which all ten checker entry points ran (incl. equal_graph and equal_graph_dim called directly), plus pairs of "
+                    "unitary diagrams that are not to_graph outputs (simplified / built with options / colour-changed / renamed / times i) judged "
+                    "against Den of the logged diagrams; non-trivial = definite answers, each compared with CircSem / Den ground truth")
 
 
 def plan_C03(prop, tier, seed, t0):
@@ -349,8 +387,12 @@ def plan_C03(prop, tier, seed, t0):
                     "mirrored as CNOTs / final permutation) started from every quiescent result of every firing order of the simplification strategy "
                     "on every circuit over the alphabet: ExtInv (Den(g);CircSem(c) proportional to the source) in EVERY state, basic gates only, "
                     "never the error state, identity wires at the end; TRACE: one program = one source circuit pushed through to_graph -> {flow, clifford, full}_simp -> Extractor in modes "
-                    "{single-solution-set, simple-Gauss, up-to-permutation} (+ flow/no-Gauss), both backends, and through the built `quizx opt` "
-                    "binary (4 method flags, stdout and -o); every output circuit is validated by TLC: basic gates only, same qubits, "
+                    "{single-solution-set, simple-Gauss, up-to-permutation} (+ flow/no-Gauss), both backends, a rotating selection of the other "
+                    "public routes (up_to_perm with simple-Gauss / flow in both call orders, with_gaussf with the pub strategies and a caller's "
+                    "function, ToCircuit::to_circuit / to_circuit_mut / extractor(); the flow extractor after clifford / full simplification is "
+                    "recorded, not judged) and through the built `quizx opt` "
+                    "binary (4 method flags, stdout, -o and --out; two method flags / missing / unparsable input must exit non-zero without a panic); "
+                    "every output circuit is validated by TLC: basic gates only, same qubits, "
                     "ProjEq(CircSem(out), CircSem(in)) with a non-zero factor (for some input permutation in up-to-permutation mode); "
                     "STEPS (hook H4): every phase of the real extraction loop (prepare / gadget / extract / gauss / perm) is logged with the remaining "
                     "diagram, the circuit so far and the frontier, and TLC checks that each is a transition of spec/Extract.tla from the previous "
@@ -367,6 +409,11 @@ def plan_C09(prop, tier, seed, t0):
     traces = [
         dict(name="hist", engine="backends", args=["--histories", 200 if q else 3000, "--len", 60, "--maxlive", 7], **T),
         dict(name="long", engine="backends", args=["--histories", 32 if q else 400, "--len", 300, "--maxlive", 10], **T),
+        # --ext (docs/api_audit.md #18, #19, C09/C10 rows): every remaining query of the interface logged after every operation, histories
+        # from Graph::default(), and adjoint / x_to_z / plug_vertex / plug_input(s) / plug_output(s) / make_bipartite / copy / append_graph and
+        # plug with `other` of the OTHER backend type / inputs_mut / add_edge / add_vertex_with_phase / the Parity-Expr constructors and
+        # operators of params.rs mixed into the histories
+        dict(name="ext", engine="backends", args=["--histories", 160 if q else 2500, "--len", 60, "--maxlive", 7, "--ext"], **T),
     ]
     return run_plan(prop, tier, seed, t0, mcs, traces, "model_checking", COMMON_ASSUME + [
                         "vertex identity across backends is a tag stored in the row coordinate; inputs/outputs are taken off the lists before a listed vertex is deleted (valid usage)"],
@@ -375,7 +422,18 @@ def plan_C09(prop, tier, seed, t0):
                     "SameOutcome in every state; TRACE: one execution = one seeded random history of 30-300 public GraphLike operations "
                     "(add/remove/named insertion incl. beyond range, raw and smart edges, data edits, inputs/outputs, scalar and scalar factors, "
                     "pack, clone, sub-graph, append) applied to both real backends; after EVERY operation the full observable of both is "
-                    "validated by TLC: internal consistency, equality with the abstract model in tag space; non-trivial = operations that changed the graph")
+                    "validated by TLC: internal consistency, equality with the abstract model in tag space; non-trivial = operations that changed the graph; "
+                    "EXT histories additionally mix in adjoint, x_to_z, plug_vertex / plug_input(s) / plug_output(s), make_bipartite, copy(adjoint), "
+                    "append_graph and plug with the other backend's graph as `other`, boundary edits through inputs_mut / outputs_mut, add_edge, "
+                    "add_vertex_with_phase, start from Graph::default(), build every Parity / Expr argument with the constructors and operators of "
+                    "params.rs, and log after every operation the answers of vertex_data_opt, vertex_type_opt, edge_type_opt (all name pairs incl. dead "
+                    "names), coord, phase, vars, phase_and_vars, neighbor_vec, incident_edge_vec, component_vertices, depth, adjacency_matrix(None/Some), "
+                    "get_scalar_factor (enumerated and absent conditions) and vec neighbor_at: InvOKx (each consistent with the enumerated graph), "
+                    "Refines against the transcriptions of spec/Compose.tla in tag space, CopyOK, GetSFOK, ParAlgOK",
+                    extra_cov_fn=lambda st, groups: {"extended_observations_validated": st.get("xobs", 0), "ext_operations": st.get("ext_ops", 0),
+                                                     "cross_backend_plugs": st.get("plugs", 0), "parity_algebra_calls": st.get("par_algs", 0),
+                                                     "parity_new_unsorted_recorded": st.get("par_unsorted", 0),
+                                                     "parity_new_unsorted_sum_not_xor": st.get("par_unsorted_wrong", 0)})
 
 
 def plan_C05(prop, tier, seed, t0):
@@ -394,9 +452,8 @@ def plan_C05(prop, tier, seed, t0):
         dict(name="saved", engine="decomp", args=["--saved", 60 if q else 1200, "--maxt", 5], **T),
         # API-coverage additions (docs/api_audit.md #3, #14): decompose_until_depth(k) + finishing run on hosts that fall into
         # components; decompose_standard, hash backend, Sherlock tries, Decomposer::empty()/set_target re-use, saving in other modes
-        dict(name="two", engine="decomp", args=["--two", 6 if q else 150, "--maxt", 5], **T),
-        dict(name="more", engine="decomp", args=["--more", 9 if q else 300, "--reuse", 30 if q else 900, "--saved-modes", 6 if q else 200,
-                                                 "--steps-hash", 18 if q else 900, "--maxt", 6], **T),
+        dict(name="api", engine="decomp", args=["--two", 6 if q else 150, "--more", 9 if q else 300, "--reuse", 30 if q else 900,
+                                                "--saved-modes", 6 if q else 200, "--steps-hash", 18 if q else 900, "--maxt", 5], **T),
     ]
     return run_plan(prop, tier, seed, t0, mcs, traces, "model_checking", COMMON_ASSUME + [
                         "'every schedule' of the real rayon pool is sampled (pool sizes 1,2,3,4,8,16 x repetitions), the fork-join model "
